@@ -112,6 +112,10 @@ class C18(ProgProp):
         dg = zlib.crc32(repr(sorted(case.items())).encode())
         if dg % 4 == 0:
             case["unset_pair"] = True
+        elif dg % 4 == 1:
+            # the failure is raised by a context hook: the bottom task is suspended inside a
+            # with-block and the context's resume() raises when the scheduler resumes it
+            case["ctx_bottom"] = True
         if (dg // 4) % 8 == 0:
             # a chain of 45-70 task levels (the stack listing must still name every creator)
             extra = 43 + (dg // 32) % 25
@@ -169,6 +173,7 @@ class C18(ProgProp):
         B = real.RealBackend(spec, ())
         B.setup()
         unset_pair = bool(case.get("unset_pair"))
+        ctx_bottom = bool(case.get("ctx_bottom")) and not unset_pair
         d = max(2, int(case.get("depth", 2)))
         levels = (case.get("levels") or [])[:d]
         while len(levels) < d:
@@ -205,6 +210,10 @@ class C18(ProgProp):
                     body.append("    yield item()")
                 if unset_pair:
                     body.append("    yield forgotten_item()")
+                elif ctx_bottom:
+                    body.append("    with RaisingCtx():")
+                    body.append("        yield item()")
+                    body.append("    return 0")
                 else:
                     body.append("    raise Boom('bottom')")
                     body.append("    yield")
@@ -252,7 +261,18 @@ class C18(ProgProp):
         text = "\n".join(src)
         fname = "<simq-c18-%d>" % (hash(text) & 0xffffff)
         linecache.cache[fname] = (len(text), None, text.splitlines(True), fname)
-        g = {"A": A, "item": item, "Boom": Boom, "stacks": stacks, "adebug": adebug, "forgotten_item": forgotten_item}
+        class RaisingCtx(A.AsyncContext):
+            def __init__(self):
+                self.n = 0
+
+            def resume(self):
+                self.n += 1
+                if self.n == 2:
+                    raise Boom("bottom")
+
+            def pause(self):
+                pass
+        g = {"A": A, "item": item, "Boom": Boom, "stacks": stacks, "adebug": adebug, "forgotten_item": forgotten_item, "RaisingCtx": RaisingCtx}
         exec(compile(text, fname, "exec"), g)
         out = []
         err = None
@@ -271,9 +291,12 @@ class C18(ProgProp):
         except BaseException as e:
             out.append(("tb-wrong-error", "chain raised %s: %s" % (type(e).__name__, str(e)[:100])))
         if err is not None:
-            user = [n for n in names if re.match(r"^(lvl_\d+|sibling|swallower|side_\d|top)$", n)]
+            user = [n for n in names if re.match(r"^(lvl_\d+|sibling|swallower|side_\d|top|resume)$", n)]
             collapsed = [n for j, n in enumerate(user) if j == 0 or user[j - 1] != n]
             want = (["top"] if unset_pair else []) + ["lvl_%d" % i for i in range(d)]
+            if ctx_bottom:
+                # the suspended bottom task's own code was not running: the raising frame is the hook
+                want = want[:-1] + ["resume"]
             if collapsed != want:
                 out.append(("glued-traceback", "traceback of the exception that crossed %d task levels has user frames %r, expected one per level in call order %r (levels %s, swallow_at %s)"
                             % (d, collapsed, want, [(l.get("how"), l.get("catch")) for l in levels], swallow_at)))
